@@ -7,6 +7,7 @@ require gitlab.com/yawning/secp256k1-voi v0.0.0
 require (
 	gitlab.com/yawning/tuplehash v0.0.0-20230713102510-df83abbf9a02 // indirect
 	golang.org/x/crypto v0.11.0 // indirect
+	golang.org/x/sys v0.10.0 // indirect
 )
 
 replace gitlab.com/yawning/secp256k1-voi => /repo
